@@ -225,7 +225,7 @@ struct Driver {
             stopped = false;
             server = std::make_unique<daemon::ControlServer>(*a, node_mutex, [this] { stopped = true; });
             for (int i = 0; i < 20; ++i) { port = free_port(); try { server->start("127.0.0.1", port); break; } catch (const std::exception&) {} }
-            ev::Ev e("reset"); probe(e); e.emit();
+            static long bi = 0; ev::Ev e("reset"); e.i("bi", ++bi); probe(e); e.emit();
             return;
         }
         vclock::advance_s(2);   // keep the per-peer announce throttle out of the way (C21 covers it)
